@@ -216,6 +216,113 @@ def unit_labelmap(ctx):
             ctx.oblige(f"instancelabelmap.add_labelmap_entry/post(view updated at p only)#p{pi}", pth.pc, post, func=f"{LM}.add_labelmap_entry")
 
 
+
+def sorted_contract(eng, rec):
+    """Trusted contract of builtin sorted(seq, key=k, reverse=r) on a sequence of symbolic length: the result is a permutation of
+    the input (bijection perm on [0, n)), ordered by key -- non-increasing when reverse is true, non-decreasing otherwise."""
+    def model(v, key, reverse):
+        if not isinstance(v, SymSeq):
+            return NotImplemented
+        if key is None or isinstance(reverse, Sym):
+            raise Unsupported("sorted contract: key function and concrete reverse flag expected")
+        eng.fresh_n += 1
+        k = eng.fresh_n
+        n = to_term(v.length)
+        perm = z3.Function(f"perm!{k}", I, I)
+        inv = z3.Function(f"perm_inv!{k}", I, I)
+        i, j = z3.Ints(f"so_i!{k} so_j!{k}")
+        out = SymSeq(v.length, lambda t: v.elem(perm(t)), name=f"sorted({v.name})")
+        keyterm = lambda t: to_term(eng.call(key, [v.elem(perm(t))], {}), "real")
+        inr = lambda t: z3.And(0 <= t, t < n)
+        order = (keyterm(i) >= keyterm(j)) if reverse else (keyterm(i) <= keyterm(j))
+        eng.assume(z3.And(z3.ForAll([i], z3.Implies(inr(i), z3.And(inr(perm(i)), inv(perm(i)) == i))),
+                          z3.ForAll([i], z3.Implies(inr(i), z3.And(inr(inv(i)), perm(inv(i)) == i))),
+                          z3.ForAll([i, j], z3.Implies(z3.And(inr(i), inr(j), i < j), order))), why="contract: sorted() = permutation ordered by key")
+        rec.append({"perm": perm, "inv": inv, "reverse": bool(reverse), "input": v, "n": n})
+        return out
+    return model
+
+
+def unit_scorer(ctx, mname):
+    """_calc_matching_metric_of_overlapping_labels against the contract its callers assume (common.MMPairs): the candidate pairs of
+    _calc_overlapping_labels, each exactly once as (score, (ref, pred)) with score = the matching metric of exactly that pair on
+    (reference, prediction), ordered best first for the metric's direction."""
+    eng = ctx.engine()
+    n0 = z3.Int("n_cand")
+    cref, cpred = z3.Function("cand_ref", I, I), z3.Function("cand_pred", I, I)
+    scoref = z3.Function("metric_value", I, I, R)
+    rec, calls = [], []
+    i, j = z3.Ints("ui uj")
+
+    def ol_summary(e, f, args, kwargs):
+        kw = dict(kwargs)
+        e.assume(z3.And(n0 >= 0, z3.ForAll([i], z3.Implies(z3.And(0 <= i, i < n0), z3.And(cref(i) > 0, cpred(i) > 0))),
+                        z3.ForAll([i, j], z3.Implies(z3.And(0 <= i, i < n0, 0 <= j, j < n0, i != j), z3.Or(cref(i) != cref(j), cpred(i) != cpred(j))))),
+                 why="contract of _calc_overlapping_labels (C09): distinct overlapping (ref, pred) pairs, positive labels")
+        calls.append(("overlap", kw))
+        return SymSeq(SymInt(n0), lambda t: (wrap(cref(t)), wrap(cpred(t))), name="overlapping")
+
+    def metric_summary(e, f, args, kwargs):
+        self_, a = args[0], list(args[1:])
+        calls.append(("metric", a, dict(kwargs)))
+        if len(a) != 4 or kwargs:
+            raise Unsupported("metric called with an unexpected signature")
+        return SymReal(scoref(to_term(a[2]), to_term(a[3])), True, "float64")
+    eng.summaries[FN + "_calc_overlapping_labels"] = ol_summary
+    eng.summaries[MM + "_Metric.__call__"] = metric_summary
+    eng.models["sorted"] = sorted_contract(eng, rec)
+    snaps = []
+
+    def mk(e):
+        del rec[:], calls[:]
+        return ["PRED-ARRAY", "REF-ARRAY", "REF-LABELS", metric(e, mname)], {}
+
+    def target(*a):
+        out = eng.call(eng.resolve(FN + "_calc_matching_metric_of_overlapping_labels"), list(a), {})
+        snaps.append((list(rec), list(calls)))
+        return out
+    paths = eng.run(target, mk)
+    fn = FN + "_calc_matching_metric_of_overlapping_labels"
+    nm = f"_functionals._calc_matching_metric_of_overlapping_labels[{mname}]"
+    info = {"metric": mname}
+    ctx.expect(f"{nm}: one returning path", len([p for p in paths if p.kind == "return"]) == 1)
+    si = 0
+    for pi, p in enumerate(paths):
+        if p.kind != "return":
+            ctx.oblige(f"{nm}/no-exception({p.exc.name() if p.exc else p.kind})#p{pi}", p.pc, z3.BoolVal(False), func=fn, replay="c03.scorer", info=info)
+            continue
+        srt, cl = snaps[si]
+        si += 1
+        out = p.value
+        ok_shape = isinstance(out, SymSeq) and len(srt) == 1
+        ov = [c for c in cl if c[0] == "overlap"]
+        ok_args = len(ov) == 1 and ov[0][1].get("prediction_arr") == "PRED-ARRAY" and ov[0][1].get("reference_arr") == "REF-ARRAY" and ov[0][1].get("ref_labels") == "REF-LABELS"
+        mc = [c for c in cl if c[0] == "metric"]
+        ok_metric = len(mc) >= 1 and all(c[1][0] == "REF-ARRAY" and c[1][1] == "PRED-ARRAY" for c in mc)
+        ctx.oblige(f"{nm}/post(candidates come from _calc_overlapping_labels on the same arrays; the metric is called on (reference, prediction, ref label, pred label))#p{pi}",
+                   [], z3.BoolVal(bool(ok_shape and ok_args and ok_metric)), func=fn, replay="c03.scorer", info=dict(info, structural=True))
+        if not (ok_shape and ok_args and ok_metric):
+            continue
+        perm, n = srt[0]["perm"], srt[0]["n"]
+        t = z3.Int("ut")
+        e_ = out.elem(t)
+        wf = isinstance(e_, tuple) and len(e_) == 2 and isinstance(e_[1], tuple) and len(e_[1]) == 2
+        ctx.oblige(f"{nm}/post(elements are (score, (ref, pred)))#p{pi}", [], z3.BoolVal(bool(wf)), func=fn, replay="c03.scorer", info=info)
+        if not wf:
+            continue
+        sc, rf, pr = to_term(e_[0], "real"), to_term(e_[1][0]), to_term(e_[1][1])
+        inr = z3.And(0 <= t, t < n0)
+        ctx.oblige(f"{nm}/post(as many entries as candidate pairs)#p{pi}", p.pc, to_term(out.length) == n0, func=fn, replay="c03.scorer", info=info)
+        ctx.oblige(f"{nm}/post(entry t is the candidate pair perm(t) in (ref, pred) order with the metric value of exactly that pair)#p{pi}", p.pc + [inr],
+                   z3.And(rf == cref(perm(t)), pr == cpred(perm(t)), sc == scoref(cref(perm(t)), cpred(perm(t)))), func=fn, replay="c03.scorer", info=info)
+        t2 = z3.Int("ut2")
+        e2 = out.elem(t2)
+        sc2 = to_term(e2[0], "real")
+        ctx.oblige(f"{nm}/post(best first: an earlier entry is at least as good in the metric's preferred direction)#p{pi}", p.pc + [inr, 0 <= t2, t2 < n0, t < t2],
+                   spec_better_eq(mname, sc, sc2), func=fn, replay="c03.scorer", info=info)
+        ctx.canary(f"{nm}#p{pi}", p.pc + [n0 >= 2], func=fn)
+
+
 def build(ctx):
     ctx.trust("multiprocessing.Pool.starmap(f, xs) == [f(*x) for x in xs] (order preserving)",
               "builtin sorted(): stable permutation ordered by key",
@@ -227,6 +334,8 @@ def build(ctx):
         for many in (False, True):
             ctx.unit(f"_match_instances[{mname},{'many' if many else 'one'}]", lambda mname=mname, many=many: unit_match(ctx, mname, many))
             ctx.unit(f"monotone[{mname},{'many' if many else 'one'}]", lambda mname=mname, many=many: unit_monotone(ctx, mname, many))
+    for mname in MATCH_METRICS:
+        ctx.unit(f"scorer[{mname}]", lambda mname=mname: unit_scorer(ctx, mname))
     ctx.add_bounded("c03-enum", "c03.bounded")
 
 
@@ -237,6 +346,8 @@ def concretise(ctx, o, r):
         return {"metric": o.info["metric"], "s": str(model_real(m.get("s", "0"))), "t": str(model_real(m.get("t", "0")))}
     if o.replay == "c03.beats_raw":
         return {"decreasing": m.get("decreasing", "False") == "True", "s": str(model_real(m.get("s", "0"))), "t": str(model_real(m.get("t", "0")))}
+    if o.replay == "c03.scorer":
+        return {"metric": o.info["metric"]}
     if o.replay != "c03.match":
         return None
     n = model_int(m.get("n", "0"))
